@@ -165,6 +165,7 @@ def handle (op : String) (args : List String) : Option String :=
         | "P" => some Checkpoint.FileState.prev | "B" => some .broken | "C" => some .cut | "D" => some .done | "S" => some .same | _ => none)
       pure (match Checkpoint.restoreOutcome fs with
         | .error => "error" | .equalsPrev => "prev" | .equalsNew => "new" | .hybrid => "hybrid")
+  | "ckpt.names" => pure (joinSp (Checkpoint.Dir.fileNames ++ [Checkpoint.Dir.sqliteName]))
   | "ckpt.sql" => do
       let (prev, failAt) ← run (do let p ← list nat; let f ← int; pure (p, f)) args
       let db := Checkpoint.sqlRun ⟨prev, none⟩ (Checkpoint.sqlSaveStmts 999) (if failAt < 0 then none else some failAt.toNat)
